@@ -357,4 +357,405 @@ theorem entry_vector (cf : List Inc) (d : Nat) (hd : 0 < d) (r c : Nat) :
       · rw [if_neg (fun hh => h2 hh.2.2), if_neg h2]
     · rw [if_neg (fun hh => h hh.1), if_neg h, if_neg h]; rfl
 
+
+/-! ### matrix-vector product -/
+
+theorem applyTrip_append (a b : Triplets) (u : Nat → Rat) (r : Nat) :
+    applyTrip (a ++ b) u r = applyTrip a u r + applyTrip b u r := by
+  induction a with
+  | nil => simp [applyTrip, Rat.zero_add]
+  | cons x a ih => simp only [List.cons_append, applyTrip, ih, Rat.add_assoc]
+
+theorem mul_add_eq_iff (d : Nat) (a x c k : Nat) (hx : x < d) (hk : k < d) :
+    a * d + x = c * d + k ↔ a = c ∧ x = k := by
+  constructor
+  · intro h
+    have h1 : (a * d + x) / d = (c * d + k) / d := by rw [h]
+    have h2 : (a * d + x) % d = (c * d + k) % d := by rw [h]
+    have hd : 0 < d := by omega
+    rw [Nat.add_comm, Nat.add_mul_div_right _ _ hd, Nat.div_eq_of_lt hx,
+        Nat.add_comm (c * d), Nat.add_mul_div_right _ _ hd, Nat.div_eq_of_lt hk] at h1
+    rw [Nat.add_comm, Nat.add_mul_mod_self_right, Nat.mod_eq_of_lt hx,
+        Nat.add_comm (c * d), Nat.add_mul_mod_self_right, Nat.mod_eq_of_lt hk] at h2
+    omega
+  · rintro ⟨rfl, rfl⟩; rfl
+
+theorem applyTrip_block (e : Inc) (d : Nat) (u : Nat → Rat) (c k : Nat) (hk : k < d) (n : Nat) (hn : n ≤ d) :
+    applyTrip ((List.range n).map (fun k' => (e.cell * d + k', e.face * d + k', e.sign))) u (c * d + k)
+      = if e.cell = c ∧ k < n then (e.sign : Rat) * u (e.face * d + k) else 0 := by
+  induction n with
+  | zero => simp [applyTrip]
+  | succ n ih =>
+    rw [List.range_succ, List.map_append, applyTrip_append, ih (by omega)]
+    simp only [List.map_cons, List.map_nil, applyTrip, Rat.add_zero]
+    have key := mul_add_eq_iff d e.cell n c k (by omega) hk
+    by_cases h1 : e.cell = c ∧ k < n
+    · have h2 : ¬ (e.cell * d + n = c * d + k) := by omega
+      have h3 : e.cell = c ∧ k < n + 1 := by omega
+      rw [if_pos h1, if_neg h2, if_pos h3, Rat.add_zero]
+    · by_cases h2 : e.cell * d + n = c * d + k
+      · have h3 : e.cell = c ∧ k < n + 1 := by omega
+        have h4 : n = k := by omega
+        rw [if_neg h1, if_pos h2, if_pos h3, Rat.zero_add, h4]
+      · have h3 : ¬ (e.cell = c ∧ k < n + 1) := by omega
+        rw [if_neg h1, if_neg h2, if_neg h3, Rat.add_zero]
+
+theorem applyTrip_vector (cf : List Inc) (d : Nat) (u : Nat → Rat) (c k : Nat) (hk : k < d) :
+    applyTrip (cf.flatMap (fun e => (List.range d).map (fun k' => (e.cell * d + k', e.face * d + k', e.sign)))) u (c * d + k)
+      = applyTrip (cf.map (fun e => (e.cell, e.face, e.sign))) (fun f => u (f * d + k)) c := by
+  induction cf with
+  | nil => rfl
+  | cons e l ih =>
+    rw [List.flatMap_cons, applyTrip_append, ih, applyTrip_block e d u c k hk d (Nat.le_refl d), List.map_cons]
+    simp only [applyTrip]
+    by_cases h : e.cell = c
+    · rw [if_pos ⟨h, hk⟩, if_pos h]
+    · rw [if_neg (fun hh => h hh.1), if_neg h]
+
+/-! ### tag dictionaries -/
+
+theorem Tags.get_set (tg : Tags) (k k' : String) (v : List Bool) :
+    (tg.set k v).get k' = if k = k' then some v else tg.get k' := by
+  induction tg with
+  | nil => simp [Tags.set, Tags.get]
+  | cons kv tg ih =>
+    unfold Tags.set
+    by_cases h : kv.1 = k
+    · by_cases h' : k = k'
+      · simp [Tags.get, h, h']
+      · have : ¬ kv.1 = k' := fun e => h' (h.symm.trans e)
+        simp [Tags.get, h, h']
+    · rw [if_neg h]
+      by_cases h' : k = k'
+      · subst h'
+        simp only [Tags.get, h, if_false]
+        rw [ih]; simp
+      · simp [Tags.get, ih, h']
+
+theorem Tags.get_eq_none_of_not_mem (tg : Tags) (k : String) (h : k ∉ tg.map (·.1)) : tg.get k = none := by
+  induction tg with
+  | nil => rfl
+  | cons kv tg ih =>
+    simp only [List.map_cons, List.mem_cons, not_or] at h
+    have hne : ¬ kv.1 = k := fun e => h.1 e.symm
+    simp only [Tags.get, hne, if_false, ih h.2]
+
+theorem get_addTags (old new : Tags) (hn : (new.map (·.1)).Nodup) (k : String) :
+    (addTags old new).get k = match new.get k with
+      | some v => some v
+      | none => old.get k := by
+  unfold addTags
+  induction new generalizing old with
+  | nil => rfl
+  | cons kv new ih =>
+    simp only [List.map_cons, List.nodup_cons] at hn
+    rw [List.foldl_cons, ih _ hn.2]
+    by_cases h : kv.1 = k
+    · subst h
+      rw [Tags.get_eq_none_of_not_mem new _ hn.1]
+      simp [Tags.get, Tags.get_set]
+    · simp only [Tags.get, h, if_false, Tags.get_set]
+
+theorem orArr_length (a b : List Bool) (h : a.length = b.length) : (orArr a b).length = a.length := by
+  induction a generalizing b with
+  | nil => cases b <;> simp [orArr]
+  | cons x a ih =>
+    cases b with
+    | nil => simp at h
+    | cons y b => simp only [List.length_cons] at h; simp [orArr, ih b (by omega)]
+
+theorem orArr_get (a b : List Bool) (h : a.length = b.length) (i : Nat) :
+    (orArr a b)[i]? = some true ↔ a[i]? = some true ∨ b[i]? = some true := by
+  induction a generalizing b i with
+  | nil => cases b <;> simp [orArr] at h ⊢
+  | cons x a ih =>
+    cases b with
+    | nil => simp at h
+    | cons y b =>
+      simp only [List.length_cons] at h
+      cases i with
+      | zero => simp [orArr]
+      | succ i => simp only [orArr, List.getElem?_cons_succ]; exact ih b (by omega) i
+
+theorem orArr_false_left (n : Nat) (b : List Bool) (h : b.length = n) : orArr (List.replicate n false) b = b := by
+  induction n generalizing b with
+  | zero => cases b <;> simp_all [orArr]
+  | succ n ih =>
+    cases b with
+    | nil => simp at h
+    | cons y b => simp only [List.length_cons] at h; simp [List.replicate_succ, orArr, ih b (by omega)]
+
+theorem indicesOf_map_range (p : Nat → Bool) (n : Nat) :
+    indicesOf ((List.range n).map p) = (List.range n).filter p := by
+  unfold indicesOf
+  simp only [List.length_map, List.length_range]
+  apply List.filter_congr
+  intro i hi
+  have hi' : i < n := List.mem_range.mp hi
+  simp [List.getD, hi']
+
+/-! ### node tags from face tags -/
+
+theorem nodeTagFromFaces_get (t : Topo) (ft : List Bool) (n : Nat) (hn : n < t.nn) :
+    (nodeTagFromFaces t ft)[n]? = some true ↔
+      ∃ f, f < t.nf ∧ ft[f]? = some true ∧ n ∈ t.fn.getD f [] := by
+  unfold nodeTagFromFaces
+  rw [List.getElem?_map, List.getElem?_range hn]
+  simp only [Option.map_some, Option.some.injEq, List.any_eq_true, List.mem_range, Bool.and_eq_true,
+    List.contains_iff_mem]
+  constructor
+  · rintro ⟨f, hf, hft, hmem⟩
+    refine ⟨f, hf, ?_, hmem⟩
+    cases hq : ft[f]? with
+    | none => simp [List.getD, hq] at hft
+    | some b => simp [List.getD, hq] at hft; rw [hft]
+  · rintro ⟨f, hf, hft, hmem⟩
+    exact ⟨f, hf, by simp [List.getD, hft], hmem⟩
+
+theorem nodeTagFromFaces_length (t : Topo) (ft : List Bool) : (nodeTagFromFaces t ft).length = t.nn := by
+  simp [nodeTagFromFaces]
+
+/-! ### sorting, unique, relabelling -/
+
+theorem mem_insertSorted (a x : Nat) (l : List Nat) : x ∈ insertSorted a l ↔ x = a ∨ x ∈ l := by
+  induction l with
+  | nil => simp [insertSorted]
+  | cons b l ih =>
+    unfold insertSorted
+    by_cases h : a ≤ b
+    · simp [h]
+    · simp only [h, if_false, List.mem_cons, ih]
+      constructor
+      · rintro (h1 | h1 | h1)
+        · exact Or.inr (Or.inl h1)
+        · exact Or.inl h1
+        · exact Or.inr (Or.inr h1)
+      · rintro (h1 | h1 | h1)
+        · exact Or.inr (Or.inl h1)
+        · exact Or.inl h1
+        · exact Or.inr (Or.inr h1)
+
+theorem mem_isort (x : Nat) (l : List Nat) : x ∈ isort l ↔ x ∈ l := by
+  induction l with
+  | nil => simp [isort]
+  | cons a l ih => simp [isort, mem_insertSorted, ih]
+
+theorem nodup_insertSorted (a : Nat) (l : List Nat) (ha : a ∉ l) (hl : l.Nodup) : (insertSorted a l).Nodup := by
+  induction l with
+  | nil => simp [insertSorted]
+  | cons b l ih =>
+    unfold insertSorted
+    by_cases h : a ≤ b
+    · simp only [h, if_true]
+      exact List.nodup_cons.mpr ⟨ha, hl⟩
+    · simp only [h, if_false]
+      rw [List.nodup_cons] at hl ⊢
+      simp only [List.mem_cons, not_or] at ha
+      refine ⟨?_, ih ha.2 hl.2⟩
+      rw [mem_insertSorted]
+      rintro (h1 | h1)
+      · exact ha.1 h1.symm
+      · exact hl.1 h1
+
+theorem nodup_isort (l : List Nat) (hl : l.Nodup) : (isort l).Nodup := by
+  induction l with
+  | nil => simp [isort]
+  | cons a l ih =>
+    rw [List.nodup_cons] at hl
+    exact nodup_insertSorted a _ (fun h => hl.1 ((mem_isort a l).mp h)) (ih hl.2)
+
+theorem mem_uniqueSorted (x : Nat) (l : List Nat) : x ∈ uniqueSorted l ↔ x ∈ l := by
+  unfold uniqueSorted; rw [mem_dedup, mem_isort]
+
+theorem nodup_uniqueSorted (l : List Nat) : (uniqueSorted l).Nodup := nodup_dedup _
+
+theorem idxOf_inj_of_mem {l : List Nat} {a b : Nat} (ha : a ∈ l) (h : l.idxOf a = l.idxOf b) : a = b := by
+  have h1 : l.idxOf a < l.length := List.idxOf_lt_length_iff.mpr ha
+  have h2 : l.idxOf b < l.length := h ▸ h1
+  have e1 := List.getElem_idxOf h1
+  have e2 := List.getElem_idxOf h2
+  rw [← e1, ← e2]
+  congr 1
+
+theorem nodup_map_of_inj_on {α β : Type} (f : α → β) (l : List α)
+    (hf : ∀ a ∈ l, ∀ b ∈ l, f a = f b → a = b) (hl : l.Nodup) : (l.map f).Nodup := by
+  induction l with
+  | nil => simp
+  | cons a l ih =>
+    rw [List.nodup_cons] at hl
+    rw [List.map_cons, List.nodup_cons]
+    constructor
+    · intro hmem
+      obtain ⟨b, hb, hfb⟩ := List.mem_map.mp hmem
+      have : a = b := hf a (by simp) b (List.mem_cons_of_mem _ hb) hfb.symm
+      exact hl.1 (this ▸ hb)
+    · exact ih (fun x hx y hy => hf x (List.mem_cons_of_mem _ hx) y (List.mem_cons_of_mem _ hy)) hl.2
+
+/-! ### subgrid extraction -/
+
+theorem mem_subEntries (cf : List Inc) (j : Nat) (cs : List Nat) (x : Inc) :
+    x ∈ subEntries cf j cs ↔ ∃ i c e, cs[i]? = some c ∧ e ∈ cf ∧ e.cell = c ∧ x = ⟨e.face, j + i, e.sign⟩ := by
+  induction cs generalizing j with
+  | nil => simp [subEntries]
+  | cons c cs ih =>
+    unfold subEntries
+    rw [List.mem_append, ih]
+    constructor
+    · rintro (h | ⟨i, c', e, hi, he, hc, hx⟩)
+      · obtain ⟨e, he, hx⟩ := List.mem_map.mp h
+        simp only [List.mem_filter, beq_iff_eq] at he
+        exact ⟨0, c, e, by simp, he.1, he.2, by simp [← hx]⟩
+      · exact ⟨i + 1, c', e, by simpa using hi, he, hc, by rw [hx]; congr 1; omega⟩
+    · rintro ⟨i, c', e, hi, he, hc, hx⟩
+      cases i with
+      | zero =>
+        left
+        simp only [List.getElem?_cons_zero, Option.some.injEq] at hi
+        refine List.mem_map.mpr ⟨e, ?_, by simp [hx]⟩
+        simp [List.mem_filter, he, hc, hi]
+      | succ i =>
+        right
+        exact ⟨i, c', e, by simpa using hi, he, hc, by rw [hx]; congr 1; omega⟩
+
+theorem nodup_subEntries (cf : List Inc) (hcf : cf.Nodup) (j : Nat) (cs : List Nat) :
+    (subEntries cf j cs).Nodup := by
+  induction cs generalizing j with
+  | nil => simp [subEntries]
+  | cons c cs ih =>
+    unfold subEntries
+    rw [List.nodup_append]
+    refine ⟨?_, ih (j + 1), ?_⟩
+    · apply nodup_map_of_inj_on _ _ _ (List.Nodup.sublist List.filter_sublist hcf)
+      intro a ha b hb hab
+      simp only [List.mem_filter, beq_iff_eq] at ha hb
+      simp only [Inc.mk.injEq, true_and] at hab
+      cases a; cases b; simp_all
+    · intro a ha b hb hab
+      obtain ⟨e, _, hx⟩ := List.mem_map.mp ha
+      obtain ⟨i, c', e', _, _, _, hy⟩ := (mem_subEntries cf (j + 1) cs b).mp hb
+      have h1 : a.cell = j := by rw [← hx]
+      have h2 : b.cell = j + 1 + i := by rw [hy]
+      rw [hab] at h1; omega
+
+/-- relabelling faces by a map that is injective on the faces present keeps the pairwise
+    uniqueness and duplicate-freeness of a list of entries -/
+theorem relabel_props (l : List Inc) (φ : Nat → Nat)
+    (hφ : ∀ e ∈ l, ∀ e' ∈ l, φ e.face = φ e'.face → e.face = e'.face)
+    (hu : ∀ e ∈ l, ∀ e' ∈ l, e.face = e'.face → (e.sign = e'.sign ∨ e.cell = e'.cell) → e = e')
+    (hn : l.Nodup) :
+    (∀ a ∈ l.map (fun e => (⟨φ e.face, e.cell, e.sign⟩ : Inc)),
+      ∀ b ∈ l.map (fun e => (⟨φ e.face, e.cell, e.sign⟩ : Inc)),
+        a.face = b.face → (a.sign = b.sign ∨ a.cell = b.cell) → a = b) ∧
+    (l.map (fun e => (⟨φ e.face, e.cell, e.sign⟩ : Inc))).Nodup := by
+  constructor
+  · intro a ha b hb hf hsc
+    obtain ⟨e1, h1, rfl⟩ := List.mem_map.mp ha
+    obtain ⟨e2, h2, rfl⟩ := List.mem_map.mp hb
+    have := hu e1 h1 e2 h2 (hφ e1 h1 e2 h2 hf) hsc
+    rw [this]
+  · apply nodup_map_of_inj_on _ _ _ hn
+    intro a ha b hb hab
+    simp only [Inc.mk.injEq] at hab
+    have hf := hφ a ha b hb hab.1
+    cases a; cases b; simp_all
+
+theorem wf_extractSubgrid (t : Topo) (h : WF t) (cells : List Nat) (hc : cells.Nodup) :
+    WF (extractSubgrid t cells).1 := by
+  have hcs : (isort cells).Nodup := nodup_isort cells hc
+  -- properties of the column selection
+  have hsub_sign : ∀ x ∈ subEntries t.cf 0 (isort cells), (x.sign = 1 ∨ x.sign = -1) ∧ x.cell < (isort cells).length := by
+    intro x hx
+    obtain ⟨i, c, e, hi, he, _, rfl⟩ := (mem_subEntries _ _ _ x).mp hx
+    refine ⟨(h.1 e he).1, ?_⟩
+    have : i < (isort cells).length := by
+      rcases Nat.lt_or_ge i (isort cells).length with hlt | hge
+      · exact hlt
+      · rw [List.getElem?_eq_none hge] at hi; cases hi
+    simpa using this
+  have hsub_uniq : ∀ a ∈ subEntries t.cf 0 (isort cells), ∀ b ∈ subEntries t.cf 0 (isort cells),
+      a.face = b.face → (a.sign = b.sign ∨ a.cell = b.cell) → a = b := by
+    intro a ha b hb hf hsc
+    obtain ⟨i1, c1, e1, hi1, he1, hc1, rfl⟩ := (mem_subEntries _ _ _ a).mp ha
+    obtain ⟨i2, c2, e2, hi2, he2, hc2, rfl⟩ := (mem_subEntries _ _ _ b).mp hb
+    simp only at hf hsc
+    have hlt : i1 < (isort cells).length := by
+      rcases Nat.lt_or_ge i1 (isort cells).length with hlt | hge
+      · exact hlt
+      · rw [List.getElem?_eq_none hge] at hi1; cases hi1
+    rcases hsc with hs | hcell
+    · have := h.uniq he1 he2 hf (Or.inl hs)
+      subst this
+      have : i1 = i2 := (List.getElem?_inj hlt hcs).mp (by rw [hi1, hi2, ← hc1, ← hc2])
+      rw [this]
+    · have hi : i1 = i2 := by omega
+      subst hi
+      have hcc : e1.cell = e2.cell := by
+        rw [hc1, hc2]
+        rw [hi1] at hi2
+        exact Option.some.inj hi2
+      have := h.uniq he1 he2 hf (Or.inr hcc)
+      rw [this]
+  have hsub_nodup := nodup_subEntries t.cf h.nodup 0 (isort cells)
+  have hmemuf : ∀ x ∈ subEntries t.cf 0 (isort cells),
+      x.face ∈ uniqueSorted ((subEntries t.cf 0 (isort cells)).map (·.face)) := by
+    intro x hx
+    rw [mem_uniqueSorted]
+    exact List.mem_map.mpr ⟨x, hx, rfl⟩
+  obtain ⟨hu, hn⟩ := relabel_props (subEntries t.cf 0 (isort cells))
+    (fun f => (uniqueSorted ((subEntries t.cf 0 (isort cells)).map (·.face))).idxOf f)
+    (fun e he e' _ hidx => idxOf_inj_of_mem (hmemuf e he) hidx) hsub_uniq hsub_nodup
+  refine ⟨?_, hu, hn, ?_⟩
+  · intro a ha
+    obtain ⟨x, hx, rfl⟩ := List.mem_map.mp ha
+    refine ⟨(hsub_sign x hx).1, ?_, (hsub_sign x hx).2⟩
+    exact List.idxOf_lt_length_iff.mpr (hmemuf x hx)
+  · simp [extractSubgrid]
+
+/-! ### splitting a face -/
+
+theorem wf_splitFace (t : Topo) (h : WF t) (f c : Nat) : WF (splitFace t f c) := by
+  have hrange : ∀ e ∈ t.cf, e.face < t.nf := fun e he => (h.1 e he).2.1
+  -- the relabelling `g` and what it does to an entry
+  have key : ∀ e1 ∈ t.cf, ∀ e2 ∈ t.cf,
+      (if e1.face = f ∧ e1.cell = c then (⟨t.nf, e1.cell, e1.sign⟩ : Inc) else e1).face
+        = (if e2.face = f ∧ e2.cell = c then (⟨t.nf, e2.cell, e2.sign⟩ : Inc) else e2).face →
+      (e1.sign = e2.sign ∨ e1.cell = e2.cell) → e1 = e2 := by
+    intro e1 h1 e2 h2 hf hsc
+    by_cases m1 : e1.face = f ∧ e1.cell = c <;> by_cases m2 : e2.face = f ∧ e2.cell = c
+    · exact h.uniq h1 h2 (m1.1.trans m2.1.symm) (Or.inr (m1.2.trans m2.2.symm))
+    · rw [if_pos m1, if_neg m2] at hf
+      have := hrange e2 h2
+      simp only at hf
+      omega
+    · rw [if_neg m1, if_pos m2] at hf
+      have := hrange e1 h1
+      simp only at hf
+      omega
+    · rw [if_neg m1, if_neg m2] at hf
+      exact h.uniq h1 h2 hf hsc
+  have hsign : ∀ e : Inc, (if e.face = f ∧ e.cell = c then (⟨t.nf, e.cell, e.sign⟩ : Inc) else e).sign = e.sign := by
+    intro e; split <;> rfl
+  have hcell : ∀ e : Inc, (if e.face = f ∧ e.cell = c then (⟨t.nf, e.cell, e.sign⟩ : Inc) else e).cell = e.cell := by
+    intro e; split <;> rfl
+  refine ⟨?_, ?_, ?_, ?_⟩
+  · intro a ha
+    obtain ⟨e, he, rfl⟩ := List.mem_map.mp ha
+    have := h.1 e he
+    rw [hsign, hcell]
+    refine ⟨this.1, ?_, this.2.2⟩
+    show _ < t.nf + 1
+    split
+    · simp
+    · omega
+  · intro a ha b hb hf hsc
+    obtain ⟨e1, h1, rfl⟩ := List.mem_map.mp ha
+    obtain ⟨e2, h2, rfl⟩ := List.mem_map.mp hb
+    rw [hsign, hsign, hcell, hcell] at hsc
+    rw [key e1 h1 e2 h2 hf hsc]
+  · apply nodup_map_of_inj_on _ _ _ h.nodup
+    intro a ha b hb hab
+    exact key a ha b hb (by rw [hab]) (Or.inl (by rw [← hsign a, ← hsign b, hab]))
+  · show (t.fn ++ [t.fn.getD f []]).length = t.nf + 1
+    rw [List.length_append, h.2.2.2]; rfl
+
 end PorepyVerif.C21
